@@ -443,6 +443,8 @@ func init() {
 		return mkStr(in.sprint(in.ifaceArgs(args[0]), true))
 	}
 	m["fmt.Errorf"] = func(in *Interp, fr *Frame, args []Value, call *ssa.CallCommon) Value {
+		in.errFmt++
+		defer func() { in.errFmt-- }()
 		r := in.sprintf(concreteStr(args[0], "format string"), in.ifaceArgs(args[1]))
 		switch len(r.wrapped) {
 		case 0:
